@@ -569,7 +569,7 @@ func c05(r *core.Run) {
 	r.Rule("C05/R1", "divisions guarded: every Quo/Mod/'/'/'%' in scope with a non-constant divisor has a zero guard on all paths, a validated-positive parameter source (directly or through a record field), positive call-site arguments, or is a named exception")
 	r.Rule("C05/R2", "coin constructors non-negative: the amount of every NewCoin/NewInt64Coin in scope is non-negative in the sign domain, or is a named exception")
 	r.Rule("C05/R3", "user-sized fields validated at the door: MsgPostFile.FileSize and .MaxProofs are rejected below 1 by ValidateBasic, an overflowing product is rejected by the division form, and the wasm entry validates before calling the handler")
-	r.Rule("C05/R4", "no explicit panic and no Must* on non-constant input in scope (codec Must(Un)Marshal of stored values excepted, see C18/R1)")
+	r.Rule("C05/R4", "no explicit panic, no Must* on non-constant input and no slice allocation sized by anything but a constant or the length of an existing collection in scope (codec Must(Un)Marshal of stored values excepted, see C18/R1)")
 	r.Rule("C05/R5", "constant indices in scope are behind a length guard, or are index 0 of a strings.Split result")
 	bb, eb := p.BlockEntries()
 	r.Check(len(eb) == 0, "C05/R0", "endblock:empty", "", "all six EndBlock methods are empty", fmt.Sprintf("%d EndBlock methods now do work and must enter the scope", len(eb)))
@@ -675,6 +675,18 @@ func c05(r *core.Run) {
 					}
 				case *ssa.Panic:
 					r.Violation("C05/R4", core.FnName(fn)+":explicit-panic", p.InstrPos(x), "explicit panic in block processing")
+				case *ssa.MakeSlice:
+					// make([]T, n, c) panics ("len/cap out of range") or exhausts memory when n or c is a stored,
+					// user-chosen number; sizes taken from existing collections (len/cap) and constants are fine
+					tbm := core.NewTermBuilder(p)
+					for _, sz := range []ssa.Value{x.Len, x.Cap} {
+						if _, isC := sz.(*ssa.Const); isC {
+							continue
+						}
+						t := tbm.Term(sz)
+						okSize := strings.HasPrefix(t, "len(") || strings.HasPrefix(t, "cap(") || strings.HasPrefix(t, "(len(") || strings.HasPrefix(t, "φ")
+						r.Check(okSize, "C05/R4", core.FnName(fn)+":make-size", p.InstrPos(x), "slice size taken from an existing collection", "a slice is allocated in block processing with a size that is not a constant or the length of an existing collection ("+t+"): a stored, user-chosen number there panics in makeslice (or exhausts memory) and halts the chain")
+					}
 				case *ssa.IndexAddr, *ssa.Index:
 					var idx, base ssa.Value
 					if ia, ok := x.(*ssa.IndexAddr); ok {
